@@ -46,6 +46,19 @@ def run(res):
         for k in range(len(raw) + 1):
             cases.append(("rpu", raw[:k]))
             cases.append(("nal", b"\x7c\x01" + raw[:k]))
+    # damage done on the ESCAPED bytes (what the un-escaper sees first): a NAL cut right after one of its emulation
+    # prevention bytes or at any byte, with a tail from a small dictionary (inputs ending in 00 00 03, 00 00, 03 ...)
+    tails = [b"", b"\x00\x00\x03", b"\x00\x00", b"\x03", b"\x00\x00\x03\x00", b"\x00\x00\x03\x03", b"\x00\x00\x00\x03", b"\x00\x03", b"\x00\x00\x03\x00\x00\x03"]
+    for raw in bases[: (40 if res.tier == "quick" else 400)]:
+        esc = b"\x7c\x01" + R.escape(raw)
+        eps = [i + 3 for i in range(len(esc) - 2) if esc[i : i + 3] == b"\x00\x00\x03"]
+        cuts = eps + [r.randrange(2, len(esc) + 1) for _ in range(3)] + [len(esc)]
+        for k in cuts:
+            cases.append(("nal", esc[:k] + (b"" if k in eps else r.choice(tails))))
+            cases.append(("nal", esc[:k] + r.choice(tails)))
+    for k in range(20, 40):
+        for t in tails:
+            cases.append(("nal", b"\x7c\x01\x19\x08\x09" + bytes(r.randrange(1, 256) for _ in range(k)) + t))
     # random bytes behind each accepted prefix, short buffers, zero tails
     for _ in range(250 if res.tier == "quick" else 6000):
         body = bytes(r.randrange(256) for _ in range(r.choice([0, 1, 3, 5, 21, 24, 30, 60])))
@@ -128,7 +141,7 @@ def run(res):
     res.coverage.update({
         "evaluations": len(lines) + len(st_lines),
         "distinct_nontrivial": len(set(lines)),
-        "rule": "valid value trees / assets / witnesses with 1..4 byte or bit mutations (75% CRC-repaired), exp-Golomb extremes up to 2^64 spliced at random bit offsets, truncation at every byte, random bytes behind each accepted prefix, short and zero-tailed buffers, mutated / truncated AV1 payloads and long read_more chains, mutated ST 2094-10 SEI; each call in a worker with a 1 GiB address-space limit; outcome class compared with the model (RPU, NAL, AV1 entry points); distinct inputs counted",
+        "rule": "valid value trees / assets / witnesses with 1..4 byte or bit mutations (75% CRC-repaired), exp-Golomb extremes up to 2^64 spliced at random bit offsets, truncation at every byte, NALs cut on their escaped bytes (after each emulation prevention byte, at random bytes) with tails such as 00 00 03 / 00 00 / 03, random bytes behind each accepted prefix, short and zero-tailed buffers, mutated / truncated AV1 payloads and long read_more chains, mutated ST 2094-10 SEI; each call in a worker with a 1 GiB address-space limit; outcome class compared with the model (RPU, NAL, AV1 entry points); distinct inputs counted",
         "impl_outcome_classes": classes, "disagreements": nd,
         "samples": [lines[0][:160], lines[len(lines) // 2][:160], st_lines[0][:120]],
     })
